@@ -482,6 +482,11 @@ class FakeWebSocket:
         self.world.rec('wire', dir=self.name, f=f)
         self._push(_Msg(self._binary, body))
 
+    def raw_send_text(self, text):
+        """RawPeer: a websocket TEXT message (str payload), which no RSocket endpoint sends."""
+        self.world.rec('wire', dir=self.name, f={'type': 'WS_TEXT', 'sid': -1, 'len': len(text), 'wire_len': len(text)})
+        self._push(_Msg(self._text, text))
+
     def inject(self, item):
         """Harness-side: deliver a raw item (message / exception / close) to this socket's reader."""
         self.inbox.put_nowait(item)
